@@ -249,8 +249,19 @@ StateFn(d2, canaryActive, failed, paused) ==
     ELSE IF d2.ruPaused THEN "RollingUpdate Paused"
     ELSE "Running"
 
+\* An explicit validation is obeyed: the ExtendedDaemonSet reconcile that reads canary-valid = the (single) up-to-date replica
+\* set makes it the active one, whatever the pause state ("a canary resumes on unpause or explicit validation", C08; "validate
+\* promotes exactly the replica set that was the canary when the command ran", C19).
+ValidationObeyed(s, e) ==
+    (IsEDS(s, e) /\ HasEDS(e.state, e.key)) =>
+      LET d == EDSOf(s, e.key)  d2 == EDSOf(e.state, e.key)  U == UpToDateRS(s, d) IN
+        (d.defaulted /\ d.strat.canary /\ Cardinality(U) = 1 /\ (\E u \in U : d.cValid = u.id /\ ~u.deleting)
+           /\ AllOK(Writes(e)) /\ ~e.res.err /\ ~e.res.panic) =>
+          (NT(<<"C08", "validated", CanaryPausedIn(d, CHOOSE u \in U : TRUE)>>) /\ \E u \in U : d2.active = u.id)
+
 C08_Step(s, e) ==
-    IsERS(s, e) =>
+    /\ ValidationObeyed(s, e)
+    /\ IsERS(s, e) =>
       LET r == RSOf(s, e.rs)  d == EDSOf(s, r.owner)  role == Role(d, r) IN
         /\ (role = "active" /\ d.ruPaused /\ GoodStrat(d)) =>
               /\ NT(<<"C08", "paused", Cardinality(Missing(s, d, r))>>)
@@ -288,7 +299,7 @@ C09_Step(s, e) ==
 (* C10 - created pods are pinned, labelled, resolved, and stable under the controller's comparison *)
 
 ValidSettingFor(s, d, n) ==
-    { x \in SeqToSet(s.settings) : x.ns = d.ns /\ x.ref = d.name /\ x.status = "valid" /\ x.sel # "" /\ x.sel = NodeOf(s, n).slabel }
+    { x \in SeqToSet(s.settings) : x.ns = d.ns /\ x.ref = d.name /\ x.status = "valid" /\ SetMatches(s, x, n) }
 
 ExpectedRes(s, d, n) ==
     LET nd == NodeOf(s, n)  V == ValidSettingFor(s, d, n) IN
@@ -309,6 +320,9 @@ C10_Step(s, e) ==
                /\ p.tol
                /\ HasNode(s, w.node) => p.res \in ExpectedRes(s, d, w.node)
                /\ HasNode(s, w.node) => p.res2 = (IF NodeOf(s, w.node).override2 \in {"r1", "r2", "r3"} THEN NodeOf(s, w.node).override2 ELSE "tmpl")
+               \* round trip: the pod just created is recognised as up to date for the same inputs (the node-annotation hash it
+               \* carries is the one the comparison computes for the node, well-formed annotations or not)
+               /\ HasNode(s, w.node) => p.nodeHash = "ok"
         \* stability: a pod that is up to date for unchanged inputs is never replaced
         /\ \A w \in UpdDeletes(s, e, d, r, role) :
              LET p == PodOf(s, w.id) IN
@@ -589,7 +603,7 @@ C19_Cmd(s, e) ==
 
 \* the controller's next reconciles interpret the commands as documented: the state function (pause -> Canary Paused,
 \* unpause -> Canary), promotion of exactly the validated replica set, rollback after fail
-C19_Step(s, e) == C19_Cmd(s, e) /\ C14_EDS(s, e) /\ C05_Step(s, e) /\ C07_Step(s, e)
+C19_Step(s, e) == C19_Cmd(s, e) /\ C14_EDS(s, e) /\ C05_Step(s, e) /\ C07_Step(s, e) /\ ValidationObeyed(s, e)
 
 
 -----------------------------------------------------------------------------
@@ -618,7 +632,6 @@ C11_Safety(s, e) ==
 (* C18 - at most one valid ExtendedDaemonsetSetting applies to a node.  Evaluated when every setting has been           *)
 (* reconciled against the same cluster state ("SettingsDone"); that only a valid setting influences pods is C10_Step.   *)
 
-SetMatches(s, x, n) == x.sel # "" /\ x.sel = NodeOf(s, n).slabel
 
 C18_Step(s, e) ==
     (e.ev = "SettingsDone") =>
